@@ -92,7 +92,8 @@ class StopTimedOut:
 
 
 # ------------------------------------------------------------------------------------------ clause 3: forced state
-from contracts.assumed_repo import reentrancy_discipline, job_discipline, reports_untouched, in_plan
+from contracts.assumed_repo import (reentrancy_discipline, job_discipline, reports_untouched, in_plan,
+                                    other_command_lists_untouched)
 
 
 def forced_payload(payload, process, identifier, event_time, forced_state, reason):
@@ -156,7 +157,7 @@ class FailCommand:
                 and e[2] == event_time and e[3] == expected and e[4] == reason)
 
     def post_discipline(self, old):
-        return job_discipline(self, old) and reports_untouched(old)
+        return job_discipline(self, old) and reports_untouched(old) and other_command_lists_untouched(old)
 
     def exc_KeyError_unknown_target(self, identifier, old):
         return identifier != '' and identifier not in old.self.supvisors.mapper.instances
